@@ -17,6 +17,11 @@ open FxVerif.Model.C13 FxVerif.Gen.C13 FxVerif.Proofs.C13 FxVerif.Model.C07 FxVe
 oracles that started later with `>`, slashes on a *missing* confirm, and the window comparisons are the expected ones -/
 theorem slashing_code_facts : SlashCodeOk := by decide
 
+/-- obligation over the regenerated shape of `isNeedOracleSetRequest`: the latest oracle set is nil-tested before the
+power-difference step dereferences it, and the float64 difference is rendered with a fixed number of decimals (`%.8f`)
+that `LegacyNewDecFromStr` always accepts — so the `panic` after the parse cannot fire -/
+theorem refresh_code_facts : RefreshCodeOk := by decide
+
 /-- obligation over the regenerated inventory: every panic / Must* / partial-arithmetic site reachable from the crosschain
 end-blocker is one the model accounts for -/
 theorem sites_covered : endBlockerSites.all isAccounted = true := by decide
@@ -29,7 +34,7 @@ theorem modelled_sites :
 /-- **the crosschain end-blocker completes in every state** (reachable or not) whose total oracle power fits `uint64`:
 any pending oracle sets / batches / bridge calls, any confirms, any ages past the signed window, any cursors -/
 theorem endBlock_total (s : State) (h : Nat) (hf : PowerFits s) : ∃ s', endBlock s h = .ok s' :=
-  FxVerif.Proofs.C13.endBlock_total slashing_code_facts s h hf
+  FxVerif.Proofs.C13.endBlock_total slashing_code_facts refresh_code_facts s h hf
 
 /-- … in particular in every state reachable through the C13 op alphabet (bond, delegate, re-delegate, edit, withdraw,
 governance updates, unbond, object creation, confirms incl. oracles that stop confirming, blocks, validator slashing) -/
